@@ -68,11 +68,6 @@ fn main() {
                 "thorough" => Tier::Thorough,
                 _ => usage(),
             };
-            let tier = match std::env::var("VERIF_TIER").ok().as_deref() {
-                Some("thorough") => Tier::Thorough,
-                Some("quick") => Tier::Quick,
-                _ => tier,
-            };
             let seed: u64 = std::env::var("VERIF_SEED").ok().and_then(|s| s.trim().parse::<i64>().ok()).map(|v| v as u64).unwrap_or(0);
             std::process::exit(driver::parent_main(prop, tier, seed));
         }
